@@ -91,12 +91,23 @@ func ZZ_C09_Session() {
 		zzrt.Assert(err == nil, "session-expiry-update-succeeds")
 	}
 	cut := st.Crashed
-	b2 := zzStart(st.Survivor(), 10)
+	// other keys and another session in the same store (a page of SCAN may hold no
+	// session key at all)
+	st.Lazy, st.Crashed, st.CrashAt = false, false, -1
+	b0 := zzStart(st, 10)
+	b0.subs.Subscribe("other", &gmqtt.Subscription{TopicFilter: "x", QoS: 1})
+	zzrt.Assert(b0.sess.Set(&gmqtt.Session{ClientID: "other!", ExpiryInterval: 7, ConnectedAt: time.Unix(5, 0)}) == nil, "second-session-set")
+	st2 := st.Survivor()
+	st2.ScanPage = zzrt.Choice(3)
+	b2 := zzStart(st2, 10)
 	var got []*gmqtt.Session
 	err = b2.sess.Iterate(func(x *gmqtt.Session) bool { got = append(got, x); return true })
 	zzrt.Assert(err == nil, "restart-iterate-succeeds")
-	zzrt.Assert(len(got) == 1, "acknowledged-session-listed-after-restart")
+	zzrt.Assert(len(got) == 2, "acknowledged-session-listed-after-restart")
 	g := got[0]
+	if g.ClientID == "other!" && len(got) == 2 {
+		g = got[1]
+	}
 	zzrt.Assert(g.ClientID == id, "session-restored-under-the-same-client-id")
 	same := func(w *gmqtt.Session) bool {
 		return zzrt.ConcreteBool(g.ExpiryInterval == w.ExpiryInterval && g.WillDelayInterval == w.WillDelayInterval && g.ConnectedAt.Unix() == w.ConnectedAt.Unix())
